@@ -458,6 +458,16 @@ func scenarios(quick bool) []scenario {
 		{"sort", []string{"sort", "-nr", "a"}}, {"tac", []string{"tac"}}, {"nothing", []string{"nothing"}},
 		{"put-q-end-emit", []string{"put", "-q", "@n[NR]=$a; end{emit @n}"}}, {"cat-n", []string{"cat", "-n"}},
 		{"put-begin-end", []string{"put", `begin{@c=0} @c+=1; $nr=NR; $fnr=FNR; $fn=FILENAME; end{emit @c}`}},
+		// process-wide settings that -I must re-establish for every file (it re-parses the command line per file)
+		{"seed-shuffle", []string{"--seed", "1", "shuffle"}},
+		{"seed-urandint", []string{"--seed", "7", "put", "$r=urandint(1,1000)"}},
+		{"seed-bootstrap", []string{"--seed", "3", "bootstrap"}},
+		{"seed-sample", []string{"--seed", "5", "sample", "-k", "2"}},
+		{"ofmt", []string{"--ofmt", "%.3f", "put", "$c=$a/7"}},
+		{"batch1-head-tac", []string{"--records-per-batch", "1", "head", "-n", "2", "then", "tac"}},
+		{"nr-progress", []string{"--nr-progress-mod", "2", "cat"}},
+		{"infer-none", []string{"-S", "put", `$c=$a."x"`}},
+		{"infer-octal", []string{"-O", "put", "$c=$a+1"}},
 	}
 	formats := []string{"dkvp", "csv", "json"}
 	lists := [][]int{{3}, {0}, {1, 3}, {3, 0, 1}, {300}} // record counts per file; 300 records ~ 5 kB > bufio's 4096
@@ -471,7 +481,7 @@ func scenarios(quick bool) []scenario {
 					k++
 					if quick {
 						// a covering subset: every verb, format, list shape, compression and mode appears
-						if !((vi+fi+li+ci)%7 == 0 || (vi == 2 && li == 3) || (li == 4 && fi == 0 && ci == 0 && vi < 3)) {
+						if !((vi+fi+li+ci)%7 == 0 || (vi == 2 && li == 3) || (li == 4 && fi == 0 && ci == 0 && vi < 3) || (vi >= 9 && li == 3 && ci == 0 && fi == (vi%3))) {
 							continue
 						}
 					} else if comp != "" && li == 4 && vi > 2 {
